@@ -539,7 +539,7 @@ def run_check(check, tier="quick", seed=None, budget_s=None, njobs=None, max_run
     }
     evdir = EVIDENCE_DIR
     alt = os.environ.get("VERIF_REPO_SRC")
-    if alt and os.path.realpath(alt) != os.path.realpath("/repo/src"):
+    if (alt and os.path.realpath(alt) != os.path.realpath("/repo/src")) or os.environ.get("VERIF_EVIDENCE_ALT"):
         # a run against another source tree (a seeded change, a snapshot) must not overwrite the evidence of /repo itself
         evdir = os.path.join("/dev/shm" if os.path.isdir("/dev/shm") else "/tmp", "verif-evidence-alt")
         os.makedirs(evdir, exist_ok=True)
